@@ -67,7 +67,7 @@ def one_case(ctx, index, rng: random.Random):
                        "edges", "gapped", "bincount", "bincount", "none", "int_range", "fixed_width_range", "bincount_range", "pretty_range"])
     if dkind == "ulps":
         # a range below the resolution of the data is only meaningful for the numpy-style rules (known finding D16)
-        spec = rng.choice(["int", "numpy", "none", "bincount"])
+        spec = rng.choice(["int", "numpy", "none"])
     via = rng.choice(["h1", "calc", "factory"])
     kw = {}
     bins_arg = None
